@@ -111,6 +111,10 @@ func (e *rgswEnv) subjects() (subs []*subject) {
 			Make:    mk, Copy: func(o any) any { return o.(*rgsw.Evaluator).WithKey(e.evk2) }, Work: evalWork,
 			Ref: func() outs { return evalWork(rgsw.NewEvaluator(e.p, e.evk2)) }})
 	}
+	// chain: shallow copy of a re-keyed evaluator
+	subs = append(subs, &subject{Ctor: "rgsw.Evaluator.ShallowCopy", Cfg: tag + "/of-WithKey(nil->full2)", Safe: true, Scratch: scratch,
+		Make: func() any { return rgsw.NewEvaluator(e.p, nil).WithKey(e.evk2) },
+		Copy: func(o any) any { return o.(*rgsw.Evaluator).ShallowCopy() }, Work: evalWork})
 	// encryptor: the RGSW ciphertext it produces must make the external product decrypt to msg * X^3
 	encWork := func(x any) (o outs) {
 		enc := x.(*rgsw.Encryptor)
@@ -143,9 +147,10 @@ type rpackEnv struct {
 	evk  *rlwe.RingPackingEvaluationKey
 	ct   *rlwe.Ciphertext
 	minN int
+	part string
 }
 
-func newRPackEnv(ps pset, minLogN int) (*rpackEnv, error) {
+func newRPackEnv(ps pset, minLogN int, partial ...bool) (*rpackEnv, error) {
 	p, err := ps.rlweParams()
 	if err != nil {
 		return nil, err
@@ -159,9 +164,15 @@ func newRPackEnv(ps pset, minLogN int) (*rpackEnv, error) {
 	if err != nil {
 		return nil, err
 	}
-	e.evk.GenRepackEvaluationKeys(e.evk.Parameters[minLogN], ski[minLogN], evkParams)
-	e.evk.GenRepackEvaluationKeys(e.evk.Parameters[p.LogN()], ski[p.LogN()], evkParams)
-	e.evk.GenExtractEvaluationKeys(e.evk.Parameters[minLogN], ski[minLogN], evkParams)
+	if len(partial) != 0 && partial[0] {
+		e.part = "/ring-switching-keys-only"
+	}
+	if len(partial) == 0 || !partial[0] {
+		// (partial: ring-switching keys only; what needs the other keys must fail alike on original and copy)
+		e.evk.GenRepackEvaluationKeys(e.evk.Parameters[minLogN], ski[minLogN], evkParams)
+		e.evk.GenRepackEvaluationKeys(e.evk.Parameters[p.LogN()], ski[p.LogN()], evkParams)
+		e.evk.GenExtractEvaluationKeys(e.evk.Parameters[minLogN], ski[minLogN], evkParams)
+	}
 	e.ct = rlwe.NewCiphertext(p, 1, p.MaxLevel())
 	for i := range e.ct.Value {
 		fillPoly(p.RingQ(), e.ct.Value[i], uint64(60+i))
@@ -231,7 +242,7 @@ func (e *rpackEnv) work(x any) (o outs) {
 }
 
 func (e *rpackEnv) subjects() []*subject {
-	return []*subject{{Ctor: "rlwe.RingPackingEvaluator.ShallowCopy", Cfg: fmt.Sprintf("%s/min%d", e.ps.Name, e.minN), Safe: true,
+	return []*subject{{Ctor: "rlwe.RingPackingEvaluator.ShallowCopy", Cfg: fmt.Sprintf("%s/min%d%s", e.ps.Name, e.minN, e.part), Safe: true,
 		Scratch: []string{"*.Evaluators{}*.EvaluatorBuffers", "*.Evaluators{}*.BasisExtender*.buffQ", "*.Evaluators{}*.BasisExtender*.buffP"},
 		Make:    func() any { return rlwe.NewRingPackingEvaluator(e.evk) },
 		Copy:    func(o any) any { return o.(*rlwe.RingPackingEvaluator).ShallowCopy() }, Work: e.work}}
